@@ -142,6 +142,8 @@ def render(c):
         data = make_msg(c["msgid"], crlf=True)
         return (f"APPEND {c['mbox']} ({' '.join(wire_flag(f) for f in c['flags'])}) ".encode()
                 + b"{%d}\r\n" % len(data) + data)
+    if k == "PopQuit":
+        return "POP3 QUIT"
     return "NOOP"
 
 
@@ -161,7 +163,7 @@ def lin_state(d: MailDriver):
     return out
 
 
-async def run_windows(d: MailDriver, rng, sessions, nwin, stats):
+async def run_windows(d: MailDriver, rng, sessions, nwin, stats, pop3=False):
     w = d.w
     await w.open("Z")
     await w.cmd("Z", "CREATE b")
@@ -195,6 +197,19 @@ async def run_windows(d: MailDriver, rng, sessions, nwin, stats):
             cmds = gen_window_cmds(rng, sessions, sel, sizes, next_id)
         if not cmds:
             continue
+        if pop3 and rng.random() < 0.6 and sizes["inbox"] >= 1:
+            # a POP3 session that has marked messages and QUITs while the IMAP commands run
+            snap = list(w.server.active_mailboxes["inbox"].uids)
+            ps = await w.open("P", pop3=True)
+            await w.raw("P", b"NOOP\r\n")
+            ks = sorted(rng.sample(range(1, len(snap) + 1), rng.choice([1, 1, 2]) if len(snap) > 1 else 1))
+            for k in ks:
+                await w.raw("P", b"DELE %d\r\n" % k)
+            if not (ps.closed or ps.task.done()):
+                cmds = [c for c in cmds if c["sess"] != "P"]
+                cmds.append({"sess": "P", "act": "PopQuit", "uid": True, "set": [], "mode": "", "flags": [], "silent": False,
+                             "mbox": "inbox", "msgid": 0, "peek": True, "uids": [snap[k - 1] for k in ks],
+                             "delay": rng.choice([0, 0, 0.01, 0.02])})
         pre = [x for c in cmds for x in c.get("pre", [])]
         if pre:
             for s_, text in pre:
@@ -205,7 +220,29 @@ async def run_windows(d: MailDriver, rng, sessions, nwin, stats):
         d.admits = []
         tags = [w.new_tag() for _ in cmds]
 
+        async def pop_quit(c):
+            from .world import Result
+            if c.get("delay"):
+                await asyncio.sleep(c["delay"])
+            ps = w.sessions["P"]
+            t0 = w.loop.time()
+            n0 = len(ps.raw)
+            w.feed(ps, b"QUIT\r\n")
+            for _ in range(4000):
+                if ps.closed or ps.task.done():
+                    break
+                await asyncio.sleep(0.05)
+            r = Result()
+            data = bytes(ps.raw[n0:])
+            r.status = "OK" if data.startswith(b"+OK") else ("NO" if data.startswith(b"-ERR") else "NONE")
+            r.vt = round(w.loop.time() - t0, 3)
+            r.closed = True
+            r.tagged = {"text": data[:60].decode("latin-1")}
+            return r
+
         async def issue(c, t):
+            if c["act"] == "PopQuit":
+                return await pop_quit(c)
             if c.get("delay"):
                 await asyncio.sleep(c["delay"])
             if c.get("slow"):
@@ -255,7 +292,7 @@ async def run_windows(d: MailDriver, rng, sessions, nwin, stats):
     return windows
 
 
-def execute(seed, nwin=6, sessions=("A", "B", "C"), p_fifo=0.6):
+def execute(seed, nwin=6, sessions=("A", "B", "C"), p_fifo=0.6, pop3=False):
     rng = random.Random(seed)
     chooser = simloop.RandomChooser(seed * 7919 + 13, p_fifo=p_fifo)
     w = World(seed=seed)
@@ -327,7 +364,7 @@ def execute(seed, nwin=6, sessions=("A", "B", "C"), p_fifo=0.6):
         _mb.Mailbox.append = slow_append
         d._orig_append = orig_append
         try:
-            return await run_windows(d, rng, list(sessions), nwin, stats)
+            return await run_windows(d, rng, list(sessions), nwin, stats, pop3=pop3)
         finally:
             _mb.Mailbox.append = d._orig_append
             _mbx.Mailbox.would_conflict = d._orig_wc
